@@ -14,25 +14,6 @@ pub open spec fn seg_parent(q: &Query, s: &Schema, p: SelectionParent) -> Seq<ch
         SelectionParent::Fragment(f) => camel(q.fragments@[f.0 as int].name@),
     }
 }
-// parents are pushed before their children: the walk up strictly decreases the id
-pub open spec fn parents_wf(q: &Query, s: &Schema) -> bool {
-    forall|id: SelectionId| #[trigger] q.selection_parent_idx@.dom().contains(id) ==> {
-        &&& (id.0 as int) < q.selections@.len()
-        &&& parent_in_range(q, s, q.selection_parent_idx@[id])
-        &&& (q.selection_parent_idx@[id] matches SelectionParent::Field(p) ==> p.0 < id.0)
-        &&& (q.selection_parent_idx@[id] matches SelectionParent::InlineFragment(p) ==> p.0 < id.0)
-    }
-}
-pub open spec fn parent_in_range(q: &Query, s: &Schema, p: SelectionParent) -> bool {
-    match p {
-        SelectionParent::Fragment(f) => (f.0 as int) < q.fragments@.len(),
-        SelectionParent::Operation(o) => (o.0 as int) < q.operations@.len(),
-        SelectionParent::Field(id) => (id.0 as int) < q.selections@.len() && (q.selections@[id.0 as int] is Field)
-            && (q.selections@[id.0 as int]->Field_0).field_id.0 < s.stored_fields@.len(),
-        SelectionParent::InlineFragment(id) => (id.0 as int) < q.selections@.len() && (q.selections@[id.0 as int] is InlineFragment)
-            && type_in_range(s, (q.selections@[id.0 as int]->InlineFragment_0).type_id),
-    }
-}
 // the segments collected by walking up from `item` (nearest parent first)
 pub open spec fn ups(q: &Query, s: &Schema, item: SelectionId) -> Seq<Seq<char>> decreases item.0
 {
